@@ -2,7 +2,7 @@
    X-loopatomic).  Needs tlen e <= INF (the interpreter caps an unbounded loop at MaxInt32). *)
 From Verif Require Import Base.Prelude Model.Tree Model.Spec Model.VM Model.Writer Gen.RunnerGen
   Proofs.SpecProofs Proofs.SpecBoundsProofs Proofs.MaskProofs
-  Proofs.VMU Proofs.VMUOps Proofs.VMUOps2 Proofs.VMUOps3 Proofs.VMUOps4 Proofs.CharLoopFacts
+  Proofs.VMU Proofs.VMUOps Proofs.VMUOps2 Proofs.VMUOps6 Proofs.VMUOps3 Proofs.VMUOps4 Proofs.CharLoopFacts
   Proofs.CompileBase Proofs.CompileDefs.
 From Coq Require Import Relations ZifyBool.
 
